@@ -476,7 +476,48 @@ def declared_tag_section(ctx):
                     ctx.spec_failure(dict(case, script=t, pair=[a, c]), "under %s the pair (%s, %s) of script-neutral glyphs is adjusted by %r, the UFO says %r" % (t, a, c, got, v))
 
 
+def marker_context_section(ctx):
+    """a hand-written kern feature with the marker in the MIDDLE, whose rules before the marker stand under script / language
+    statements (a language of an EARLIER script, then another script): the compiled GPOS has exactly the declared language
+    systems, and each exposes the generated mark feature next to the kerning"""
+    import ufo2ft
+    from fontTools.ttLib import TTFont
+    VARIANTS = [("script latn; language SRB; pos A V -10; script cyrl; pos a-cy be-cy -20;", [("latn", "SRB "), ("cyrl", "dflt")]),
+                ("script cyrl; language SRB; pos a-cy be-cy -20; script latn; pos A V -10;", [("cyrl", "SRB "), ("latn", "dflt")]),
+                ("script latn; language SRB; pos A V -10; language dflt; script cyrl; language dflt; pos a-cy be-cy -20;", [("latn", "SRB "), ("cyrl", "dflt")])]
+    for i in range(ctx.budget(2 * len(VARIANTS), 4 * len(VARIANTS))):
+        body, extra_ls = VARIANTS[i % len(VARIANTS)]
+        lib = ["ufoLib2", "defcon"][(i // len(VARIANTS)) % 2]
+        flavor = ["ttf", "otf"][(i // (2 * len(VARIANTS))) % 2]
+        glyphs = [{"name": n, "unicodes": [u], "width": 500, "contours": [], "anchors": [("top", Fr(250), Fr(600))]}
+                  for n, u in (("A", 0x41), ("V", 0x56), ("a-cy", 0x430), ("be-cy", 0x431))]
+        glyphs.append({"name": "acutecomb", "unicodes": [0x301], "width": 0, "contours": [], "anchors": [("_top", Fr(0), Fr(480))]})
+        declared = [("DFLT", "dflt"), ("latn", "dflt"), ("cyrl", "dflt")] + [ls for ls in extra_ls if ls[1] != "dflt"]
+        fea = "".join("languagesystem %s %s;\n" % ls for ls in declared) + "feature kern {\n    %s\n    # Automatic Code\n    pos V A -30;\n} kern;\n" % body
+        desc = {"glyphs": glyphs, "kerning": {("A", "V"): Fr(-40), ("a-cy", "be-cy"): Fr(-15)}, "features": fea,
+                "lib": {"public.openTypeCategories": {"A": "base", "V": "base", "a-cy": "base", "be-cy": "base", "acutecomb": "mark"}}}
+        case = {"font": jsonable(dict(desc, kerning={"%s|%s" % k: v for k, v in desc["kerning"].items()})), "lib": lib, "flavor": flavor,
+                "level": "marker in the middle of a hand-written kern feature with script / language statements"}
+        ctx.count(); ctx.klass("marker under script/language statements: variant %d" % (i % len(VARIANTS))); ctx.nontriv(("mctx", i, ctx.scale))
+        try:
+            tt = (ufo2ft.compileTTF if flavor == "ttf" else ufo2ft.compileOTF)(build_font(desc, lib), useProductionNames=False)
+            buf = io.BytesIO(); tt.save(buf); buf.seek(0); tt = TTFont(buf)
+        except Exception as e:
+            ctx.spec_failure(case, "compile raised %s: %s\n%s" % (type(e).__name__, e, traceback.format_exc()[-1200:]))
+            continue
+        sc = Layout(tt).scripts()
+        got = sorted((t, lg) for t, langs in sc.items() for lg in langs)
+        want = sorted((t, lg if lg == "dflt" else lg.ljust(4)) for t, lg in declared)
+        if got != want:
+            ctx.spec_failure(dict(case, language_systems=got), "the compiled GPOS has the language systems %r; the feature file declares %r" % (got, want))
+        for t, langs in sc.items():
+            for lg, feats in langs.items():
+                if ("kern" in feats) != ("mark" in feats):
+                    ctx.spec_failure(dict(case, script=t, language=lg, features=feats), "language system %s/%s exposes %r: the generated kern and mark features go together" % (t, lg.strip(), feats))
+
+
 def explore(ctx):
+    marker_context_section(ctx)
     declared_tag_section(ctx)
     lookup_refs_section(ctx)
     rules_section(ctx)
